@@ -314,6 +314,15 @@ func dischargeSet(e *enc, dir string, idx int, timeoutMs int, obls []*Obl, retry
 }
 
 func retryOne(e *enc, o *Obl, dir string, idx, k, timeoutMs int, cfgs []SolverCfg) {
+	retryOnce(e, o, dir, idx, k, timeoutMs, cfgs)
+	if o.Result != "unsat" && o.Result != "sat" && o.Result != "error" {
+		// undecided: the machine may be busy; one more round with four times the time before this counts
+		// as a failed obligation
+		retryOnce(e, o, dir, idx, k, timeoutMs*4, solverCfgs(timeoutMs*4, e.strTheory))
+	}
+}
+
+func retryOnce(e *enc, o *Obl, dir string, idx, k, timeoutMs int, cfgs []SolverCfg) {
 	{
 		single := filepath.Join(dir, fmt.Sprintf("f%04d_o%d.smt2", idx, k))
 		os.WriteFile(single, []byte(e.singleQuery(o, false)), 0644)
